@@ -135,6 +135,9 @@ func runC05(c *Ctx) {
 	}
 	c.Fn(FuncName(maskX), FuncName(regexX))
 
+	importRules(c, runC03, map[string]string{"C03.R1": "C05.R6", "C03.R2": "C05.R6", "C03.R3": "C05.R6", "C03.R4": "C05.R6", "C03.R8": "C05.R6"},
+		map[string]string{"C05.R6": "the compiled mask accepts no more than the mask says: escape table, stage order, pipe partition, expansions, suffix rewrite (shared with C03.R1-R4/R8); otherwise the pattern accepts URLs that need not contain the shortcut"})
+
 	// ---------- R1 ----------
 	{
 		var masks []string
